@@ -12,7 +12,9 @@
 (*             record shows as a negative id) and its size in bytes,       *)
 (*   files     the backups, oldest first: [ts, ageh, recs, gz],            *)
 (*   junk      bytes in any file that are not a complete record.           *)
-(* A "write" with id 0 is the driver's empty barrier record.  An event is  *)
+(* "burst" = several writes without a barrier in between, "closeq" = Close *)
+(* called with records still queued (RotateLogRel!BurstFailed).  An event  *)
+(* is                                                                      *)
 (* accepted iff RotateLogRel!StepFailed names no clause; then the observed *)
 (* directory becomes the state.  A rejected event has no successor: the    *)
 (* high-water mark of `l` (TLC register 1, -workers 1) stays below the     *)
@@ -35,6 +37,11 @@ Failed(c, k, kb, bs, cl, e) ==
   CASE e.ev = "write" ->
          (IF cl THEN {"write-after-close"} ELSE {})
          \cup StepFailed(c, k, kb, bs, e.id, e.size, e.cur, e.cb, e.files) \cup Garbage(e)
+    [] e.ev = "burst" ->
+         (IF cl THEN {"write-after-close"} ELSE {})
+         \cup BurstFailed(c, k, bs, e.ids, TRUE, e.cur, e.cb, e.clast, e.files) \cup Garbage(e)
+    [] e.ev = "closeq" ->
+         BurstFailed(c, k, bs, e.ids, FALSE, e.cur, e.cb, e.clast, e.files)
     [] e.ev = "close" ->
          (IF e.cur = k /\ e.cb = kb /\ SameFiles(e.files, bs) THEN {} ELSE {"changed-by-close"}) \cup Garbage(e)
     [] e.ev = "daychange" -> {}
@@ -52,10 +59,10 @@ StartEv ==
 
 ObsEv ==
   LET e == TraceLog[l + 1] IN
-  /\ e.ev \in {"write", "close"}
+  /\ e.ev \in {"write", "close", "burst", "closeq"}
   /\ Failed(cfg, cur, cb, bks, closed, e) = {}
   /\ cur' = e.cur /\ cb' = e.cb /\ bks' = e.files
-  /\ closed' = (e.ev = "close")
+  /\ closed' = (e.ev \in {"close", "closeq"})
   /\ UNCHANGED cfg
 
 DayEv == TraceLog[l + 1].ev = "daychange" /\ UNCHANGED <<cfg, cur, cb, bks, closed>>
